@@ -14,6 +14,7 @@ import (
 	"github.com/gregoryv/mq"
 
 	"verif/drv"
+	"verif/link"
 	"verif/ref"
 	"verif/sim"
 )
@@ -183,6 +184,39 @@ func runC11(c *sim.Ctx) *sim.Violation {
 			return sim.V("C11/"+typ+"/nondeterministic-bytes/"+sitesSeen(),
 				"encoding depends on map iteration order at %s: permutation index %d gives %s\n%s", sitesSeen(), idx, hexs(b), desc())
 		}
+	}
+	// a FRESH equal packet (rebuilt from the same values, or decoded again from the
+	// same frame) encoded under each order: catches an order that is chosen on
+	// first use and then remembered inside the packet
+	fresh := func() mq.Packet {
+		if how == "decoded" {
+			f, _ := ref.Encode(a)
+			if o := ReadOne(link.NewReader(c.Muted(), f, link.Mode{})); o.Kind == "packet" {
+				return o.P
+			}
+			return nil
+		}
+		q, _, err := buildGuard(a, nil)
+		if err != nil {
+			return nil
+		}
+		return q
+	}
+	for idx := 0; idx < 24; idx += 1 + idx/4 {
+		q := fresh()
+		if q == nil {
+			break
+		}
+		mode := 2
+		if idx == 0 {
+			mode = 1
+		}
+		b, _, _ := c11Encode(q, mode, idx)
+		if !bytes.Equal(b, B0) {
+			return sim.V("C11/"+typ+"/nondeterministic-bytes/fresh-equal-packet/"+sitesSeen(),
+				"an equal packet (%s again from the same values) encoded under map order index %d gives %s\n%s", how, idx, hexs(b), desc())
+		}
+		c.Count("encodings.fresh-equal-packet")
 	}
 	// tape-drawn permutations, fresh at each range execution
 	for k := 0; k < 6; k++ {
